@@ -11,6 +11,7 @@ pub fn dispatch(f: &[String]) -> String {
         "type" => types(f),
         "call" => call(&f[1], &f[2], &f[3]),
         "progk" => progk(&f[1], &f[2], &f[3]),
+        "errk" => errk(&f[1], &f[2], &f[3]),
         "value" => value_mode(f),
         "repl" => repl(&f[1], &f[2], &f[3..]),
         "reexec" => reexec(&f[1], &f[2], &f[3]),
@@ -514,6 +515,35 @@ fn progk(flags: &str, k: &str, src: &str) -> String {
     format!("(progk {} {})", outs.len(), outs.join(" "))
 }
 
+
+/// `errk <flags> <K> <src>`: parse the same text K times; when it is rejected, the K error VALUES must be equal to each other
+/// (`PartialEq for Error`) - an error that embeds a type must not compare by anything that depends on hash order
+fn errk(flags: &str, k: &str, src: &str) -> String {
+    let k: usize = k.parse().unwrap_or(3);
+    let r = panic::catch_unwind(AssertUnwindSafe(|| {
+        let mut errs = Vec::new();
+        let mut accepted = 0usize;
+        for _ in 0..k {
+            let interp = interpreter_for(flags);
+            match Code::parse(&interp, src) {
+                Ok(_) => accepted += 1,
+                Err(e) => errs.push(e),
+            }
+        }
+        let mut unequal = 0usize;
+        for e in &errs {
+            if !(e == &errs[0]) || !(&errs[0] == e) {
+                unequal += 1;
+            }
+        }
+        let name = errs.first().map(|e| canon::error(e)).unwrap_or_else(|| "none".into());
+        format!("(errk accepted={} rejected={} unequal={} {})", accepted, errs.len(), unequal, name)
+    }));
+    match r {
+        Ok(s) => s,
+        Err(_) => format!("(parse-panic {})", take_panic()),
+    }
+}
 
 /// `value rt <program>`: evaluate the program to a value v, print it with `{:?}` (what the REPL prints),
 /// read the text back with Variable::from_str and as a program; `value parse <text>`: Variable::from_str
